@@ -1403,6 +1403,11 @@ class ArgumentParser(ParserDeprecations, ActionsContainer, ArgumentLinking, argp
         ActionTypeHint.apply_appends(self, cfg_to)
         return cfg_to
 
+    def _check_value(self, action, value):
+        if hasattr(action, "_check_type"):
+            return  # value not converted yet, choices are checked in Action._check_type_
+        super()._check_value(action, value)
+
     def _check_value_key(self, action: argparse.Action, value: Any, key: str, cfg: Optional[Namespace]) -> Any:
         """Checks the value for a given action.
 
